@@ -49,13 +49,19 @@ func TestVerifConcurrent(t *testing.T) {
 
 func concHooks(srv *vs.Server, sc *vs.Scenario, calls *int64Counter) vs.HookHandler {
 	return func(c *vs.HookCall) vs.HookReply {
-		calls.inc()
+		n := calls.n.Add(1)
 		parts := splitPath(c.Path)
 		hook := ""
 		if len(parts) >= 2 {
 			hook = parts[1]
 		}
-		return srv.RunHookProg(vs.AsMap(sc.Hook[hook]), c.Req)
+		prog := vs.AsMap(sc.Hook[hook])
+		// failBurst k: of every 16k consecutive hook calls the first k fail (the parallel per-revision calls of one sync
+		// then fail together now and then: error paths run concurrently too)
+		if k := int64(vs.AsInt(prog["failBurst"])); k > 0 && hook != "customize" && n%(16*k) < k {
+			return vs.HookReply{Status: 500, Body: []byte(`{"injected":true}`)}
+		}
+		return srv.RunHookProg(prog, c.Req)
 	}
 }
 
